@@ -77,6 +77,10 @@ inductive InRole where
   | selfRef
   | selfHip
   | selfOther
+  /-- lifetime parameter of `Self` that is the region of a `&'p mut` field of the type
+      (`Drain<'a, V>`, the `RefMut` guards): through `&self`/`&mut self` that data can only be
+      reborrowed for the self-borrow, never handed out at `'p` -/
+  | selfMut
   | argRef
   | argHip
   | argOther
@@ -113,6 +117,11 @@ structure FnSig where
   isUnsafe : Bool
   nameUnchecked : Bool
   hasSafetyDoc : Bool
+  /-- `some callee`: the body is a PURE FORWARDER — its only statement is (possibly inside
+      `unsafe {}`) one call/method call in unsafe context whose receiver and arguments are the
+      fn's own parameters passed through unvalidated, at least one of them not `self`
+      (the string is for display only) -/
+  forwardsToUnsafe : Option String
   ins : List InRegion
   outs : List OutRegion
   outlives : List (Region × Region)
